@@ -28,6 +28,8 @@ struct H20 {
     use_frames: Mutex<Vec<(usize, u64, String, bool)>>, // node, conn, text, quoted
     /// node index + 1 whose USE acknowledgements are delayed beyond the client's connection timeout (0: none)
     slow_node: AtomicU64,
+    /// (connection, log position) of every USE that a node executed only after the client had given up on it
+    late_executions: Arc<Mutex<Vec<(u64, u64)>>>,
 }
 
 impl H20 {
@@ -55,8 +57,13 @@ impl Handler for H20 {
         let quoted = text.contains('"');
         self.use_frames.lock().unwrap().push((rq.node.idx, rq.conn.id, text, quoted));
         if self.slow_node.load(Ordering::SeqCst) == rq.node.idx as u64 + 1 {
+            // the node is slow to EXECUTE this USE: it takes effect (and is answered) only after the client's timeout.
+            // Requests of one connection are independent of each other, so this late execution may even undo a
+            // newer USE on the same connection: such connections are recorded (see the judge).
+            let late = self.late_executions.clone();
             tokio::spawn(async move {
                 tokio::time::sleep(Duration::from_millis(SLOW_USE_MS)).await;
+                late.lock().unwrap().push((rq.conn.id, rq.cluster.log.counter()));
                 rq.ack_keyspace(&keyspace);
             });
             return;
@@ -109,10 +116,11 @@ struct HistOut {
     log: Arc<crate::mock::log::EventLog>,
     build_error: Option<String>,
     use_results: Vec<(u64, String, bool)>, // op, name, ok
+    late_executions: Vec<(u64, u64)>,
 }
 
 async fn run_hist(h: &Hist) -> HistOut {
-    let handler = Arc::new(H20 { delay_pm: h.delay_pm, error_pm: AtomicU64::new(0), counter: AtomicU64::new(0), seed: h.seed, use_frames: Mutex::new(vec![]), slow_node: AtomicU64::new(0) });
+    let handler = Arc::new(H20 { delay_pm: h.delay_pm, error_pm: AtomicU64::new(0), counter: AtomicU64::new(0), seed: h.seed, use_frames: Mutex::new(vec![]), slow_node: AtomicU64::new(0), late_executions: Arc::new(Mutex::new(vec![])) });
     let sharded = NodeSpec { dc: Some("dc1".into()), rack: Some("r1".into()), tokens: vec![-500], sharding: Some(ShardSpec { nr_shards: 3, msb_ignore: 12, shard_aware_port: true }), features: Features::default() };
     let mut ks = vec![];
     // "Ks3" and "ks3", "ks2" and "KS2" are different keyspaces: a name used case-sensitively must not be folded,
@@ -123,7 +131,7 @@ async fn run_hist(h: &Hist) -> HistOut {
     let spec = ClusterSpec { nodes: vec![sharded.clone(), NodeSpec::simple("dc1", "r2", vec![500])], keyspaces: ks, cluster_name: "c20".into() };
     let cluster = MockCluster::start(spec, handler.clone()).await;
     let log = cluster.log().clone();
-    let mut out = HistOut { log: log.clone(), build_error: None, use_results: vec![] };
+    let mut out = HistOut { log: log.clone(), build_error: None, use_results: vec![], late_executions: vec![] };
     let per_shard = h.per_shard;
     // half of the histories start with a keyspace given to the SessionBuilder: it counts as a
     // use_keyspace call that has returned once the session is built
@@ -226,6 +234,7 @@ async fn run_hist(h: &Hist) -> HistOut {
     for w in workers {
         let _ = tokio::time::timeout(Duration::from_secs(15), w).await;
     }
+    out.late_executions = handler.late_executions.lock().unwrap().clone();
     drop(session);
     cluster.shutdown();
     out
@@ -298,6 +307,14 @@ fn judge(o: &mut Outcome, h: &Hist, r: &HistOut) {
             conns_after_use.insert(*conn);
         }
         // the call names the keyspace as the server resolves it: literally when case-sensitive, folded otherwise
+        // A USE that the client had given up on (timed out) and that the node executed only later may have
+        // changed the connection behind the driver's back - the statement says nothing about such connections
+        // (first version: judged them, a false alarm of the thorough tier on the unchanged tree).
+        if r.late_executions.iter().any(|(c, at)| c == conn && *at < l.seq) {
+            unspecified += 1;
+            o.class("connection-changed-by-a-late-executed-USE(not-asserted)");
+            continue;
+        }
         let got = keyspace.as_deref().unwrap_or("");
         let want = if name.starts_with('"') { name.trim_matches('"').to_string() } else { name.to_lowercase() };
         if got != want {
@@ -371,7 +388,7 @@ fn name_is_valid(n: &str) -> bool {
 }
 
 async fn validation(o: &mut Outcome, ctx: &Ctx) {
-    let handler = Arc::new(H20 { delay_pm: 0, error_pm: AtomicU64::new(0), counter: AtomicU64::new(0), seed: 0, use_frames: Mutex::new(vec![]), slow_node: AtomicU64::new(0) });
+    let handler = Arc::new(H20 { delay_pm: 0, error_pm: AtomicU64::new(0), counter: AtomicU64::new(0), seed: 0, use_frames: Mutex::new(vec![]), slow_node: AtomicU64::new(0), late_executions: Arc::new(Mutex::new(vec![])) });
     let cluster = MockCluster::start(single_node_spec(), handler.clone()).await;
     cluster.allow_any_keyspace();
     let session = match connect(&cluster, |b| b).await {
